@@ -109,7 +109,9 @@ pub fn field_mutants(spec: &XzSpec) -> Vec<Mutant> {
                 s.blocks[bi].packed_size = Some(v);
                 refit_header(&mut s.blocks[bi]);
                 // the index must describe the file as it now is
-                s.index_records[bi].0 = s.blocks[bi].unpadded_size();
+                if bi < s.index_records.len() {
+                    s.index_records[bi].0 = s.blocks[bi].unpadded_size();
+                }
                 push("block_packed_size", cl, s);
             }
         }
@@ -118,7 +120,9 @@ pub fn field_mutants(spec: &XzSpec) -> Vec<Mutant> {
                 let mut s = spec.clone();
                 s.blocks[bi].unpacked_size = Some(v);
                 refit_header(&mut s.blocks[bi]);
-                s.index_records[bi].0 = s.blocks[bi].unpadded_size();
+                if bi < s.index_records.len() {
+                    s.index_records[bi].0 = s.blocks[bi].unpadded_size();
+                }
                 push("block_unpacked_size", cl, s);
             }
         }
@@ -184,6 +188,29 @@ pub fn field_mutants(spec: &XzSpec) -> Vec<Mutant> {
             s.index_records[ri].1 = v;
             push("index_unpacked", cl, s);
         }
+    }
+    // structural index faults: records removed / added, with the count field
+    // following (a consistent-looking index that disagrees with the blocks)
+    for r in 1..=spec.index_records.len() {
+        let mut s = spec.clone();
+        let keep = spec.index_records.len() - r;
+        s.index_records.truncate(keep);
+        s.index_count = keep as u64;
+        push("index_records", format!("last-{}-dropped,count-follows", r.min(3)), s);
+        let mut s = spec.clone();
+        s.index_records.drain(0..r);
+        s.index_count = keep as u64;
+        push("index_records", format!("first-{}-dropped,count-follows", r.min(3)), s);
+    }
+    {
+        let extra = spec.index_records.last().copied().unwrap_or((12, 0));
+        let mut s = spec.clone();
+        s.index_records.push(extra);
+        s.index_count = s.index_records.len() as u64;
+        push("index_records", "one-added,count-follows".into(), s);
+        let mut s = spec.clone();
+        s.index_records.push(extra);
+        push("index_records", "one-added,count-unchanged".into(), s);
     }
     if spec.index_records.len() >= 2 && spec.index_records[0] != spec.index_records[1] {
         let mut s = spec.clone();
@@ -460,7 +487,8 @@ fn label(group: &str, i: u32) -> String {
     }
 }
 
-const FIELDS: [&str; 20] = [
+const FIELDS: [&str; 21] = [
+    "index_records",
     "header_magic", "header_flags", "header_crc", "block_header_size", "block_packed_size", "block_unpacked_size",
     "block_header_padding", "block_header_crc", "block_padding", "block_check", "index_indicator", "index_count",
     "index_unpadded", "index_unpacked", "index_padding", "index_crc", "footer_crc", "footer_backward_size",
